@@ -505,6 +505,96 @@ def tr_adevice(repo):
   return out
 
 
+def tr_cdevice2(repo):
+  """CDevice2._cost_fn / cost / deriv (device_kit/cdevice2.py): the preference object is InnerSumFunction(HLQuadraticCost(p_l, p_h, c[0], c[1]))
+  for one cumulative range and RangesFunction([((c[2], c[3]), InnerSumFunction(HLQuadraticCost(p_l, p_h, c[0], c[1]))) for c in cbounds])
+  otherwise; an object's methods are the generated methods of its class (innersum_fobj / ranges_fobj below)."""
+  def un(e):
+    return ast.unparse(e)
+  tree = ast.parse(open(os.path.join(repo, 'device_kit', 'cdevice2.py')).read())
+  try:
+    node = next(c for c in tree.body if isinstance(c, ast.ClassDef) and c.name == 'CDevice2')
+  except StopIteration:
+    raise Unsupported('?:Module:class CDevice2 not found')
+  props = {n.name: n for n in node.body if isinstance(n, ast.FunctionDef) and [un(d) for d in n.decorator_list] == ['property']}
+  meths = {n.name: n for n in node.body if isinstance(n, ast.FunctionDef) and not n.decorator_list}
+  for nm, ret in (('p_h', 'self._p_h'), ('p_l', 'self._p_l')):
+    if nm not in props or un(props[nm].body[-1]) != 'return %s' % ret:
+      U(node, 'property %s' % nm)
+  cf = props.get('_cost_fn') or U(node, '_cost_fn')
+  b = [x for x in cf.body if not (isinstance(x, ast.Expr) and isinstance(x.value, ast.Constant))]
+  if len(b) != 2 or not isinstance(b[0], ast.If) or b[0].orelse or len(b[0].body) != 1 or not isinstance(b[0].body[0], ast.Return) or not isinstance(b[1], ast.Return):
+    U(cf, '_cost_fn body')
+
+  def nat(e):
+    if isinstance(e, ast.Constant) and isinstance(e.value, int) and not isinstance(e.value, bool) and e.value >= 0:
+      return '%d%%nat' % e.value
+    if un(e) == 'len(self.cbounds)':
+      return '(length cbounds)'
+    U(e, 'integer %s' % un(e))
+  t = b[0].test
+  if not (isinstance(t, ast.Compare) and len(t.ops) == 1 and isinstance(t.ops[0], ast.Eq)):
+    U(t, 'test')
+  test = '(%s =? %s)%%nat' % (nat(t.left), nat(t.comparators[0]))
+  FIELD = {0: 'cb_lo', 1: 'cb_hi', 2: 'cb_s', 3: 'cb_e'}
+
+  def cfield(e, cvar):
+    """c[k] / self.cbounds[0][k]"""
+    if isinstance(e, ast.Subscript) and isinstance(e.slice, ast.Constant) and e.slice.value in FIELD:
+      base = e.value
+      if cvar and un(base) == cvar:
+        return '(%s %s)' % (FIELD[e.slice.value], cvar), ('S' if e.slice.value < 2 else 'N')
+      if isinstance(base, ast.Subscript) and un(base.value) == 'self.cbounds' and isinstance(base.slice, ast.Constant) and isinstance(base.slice.value, int) and base.slice.value >= 0:
+        return '(%s (nth %d cbounds (n0, n0, 0%%nat, 0%%nat)))' % (FIELD[e.slice.value], base.slice.value), ('S' if e.slice.value < 2 else 'N')
+    U(e, 'cumulative-bound field %s' % un(e))
+
+  def scalar(e, cvar):
+    if un(e) == 'self.p_l':
+      return 'p_l'
+    if un(e) == 'self.p_h':
+      return 'p_h'
+    t_, ty = cfield(e, cvar)
+    if ty != 'S':
+      U(e, 'scalar expected')
+    return t_
+
+  def fobj(e, cvar):
+    """InnerSumFunction(HLQuadraticCost(a, b, c, d))"""
+    if isinstance(e, ast.Call) and un(e.func) == 'InnerSumFunction' and len(e.args) == 1 and not e.keywords:
+      h = e.args[0]
+      if isinstance(h, ast.Call) and un(h.func) == 'HLQuadraticCost' and len(h.args) == 4 and not h.keywords:
+        return '(innersum_fobj (sfobj_hl (%s, %s, %s, %s)))' % tuple(scalar(a, cvar) for a in h.args)
+    U(e, 'function object %s' % un(e))
+  one = fobj(b[0].body[0].value, None)
+  r = b[1].value
+  if not (isinstance(r, ast.Call) and un(r.func) == 'RangesFunction' and len(r.args) == 1 and isinstance(r.args[0], ast.ListComp) and len(r.args[0].generators) == 1):
+    U(b[1], 'RangesFunction')
+  g = r.args[0].generators[0]
+  if not (isinstance(g.target, ast.Name) and un(g.iter) == 'self.cbounds' and not g.ifs):
+    U(g, 'generator')
+  c = g.target.id
+  el = r.args[0].elt
+  if not (isinstance(el, ast.Tuple) and len(el.elts) == 2 and isinstance(el.elts[0], ast.Tuple) and len(el.elts[0].elts) == 2):
+    U(el, 'range entry')
+  lo, tl = cfield(el.elts[0].elts[0], c)
+  hi, th = cfield(el.elts[0].elts[1], c)
+  if (tl, th) != ('N', 'N'):
+    U(el, 'range limits')
+  many = '(ranges_fobj (map (fun %s => ((%s, %s), %s)) cbounds))' % (c, lo, hi, fobj(el.elts[1], c))
+  out = {'cost_fn': '(if %s then %s else %s)' % (test, one, many)}
+  m = meths.get('cost') or U(node, 'cost')
+  bb = [x for x in m.body if not (isinstance(x, ast.Expr) and isinstance(x.value, ast.Constant))]
+  if [a.arg for a in m.args.args] != ['self', 's', 'p'] or len(bb) != 1 or un(bb[0]) != 'return self._cost_fn(s) + np.array(s * p).sum()':
+    U(m, 'cost')
+  out['cost'] = '(f_call (CDevice2_cost_fn p_l p_h cbounds) s + vsum (vmul s p))'
+  m = meths.get('deriv') or U(node, 'deriv')
+  bb = [x for x in m.body if not (isinstance(x, ast.Expr) and isinstance(x.value, ast.Constant))]
+  if [a.arg for a in m.args.args] != ['self', 's', 'p'] or len(bb) != 1 or un(bb[0]) != 'return np.ones(len(self)) * self._cost_fn.deriv(s) + p':
+    U(m, 'deriv')
+  out['deriv'] = '(vadd (vmul (ones n) (f_deriv (CDevice2_cost_fn p_l p_h cbounds) s)) p)'
+  return out
+
+
 def gen_functions(repo):
   fname = os.path.join(repo, 'device_kit', 'functions.py')
   out = ['(* GENERATED by translator/functions_tx.py from device_kit/functions.py -- do not edit. *)',
@@ -555,6 +645,29 @@ def gen_functions(repo):
       out.append('(* functions.py: RangesFunction.%s NOT TRANSLATED (%s): alias of the hand-written model, tie falls back to the correspondence *)' % ({'call': '__call__'}.get(mn, mn), err))
       body = RF[mn][1]
     out.append('Definition RangesFunction_%s (ranges : list (nat * nat)) (functions : list (fobj A)) (x : list A) : %s :=\n  %s.\n' % (mn, RF[mn][0], body))
+  # CDevice2 (device_kit/cdevice2.py): a preference object assembled from the classes above
+  out.append('(* an object is its class: the methods of an InnerSumFunction / a RangesFunction object are the generated methods of the class *)')
+  out.append('Definition innersum_fobj (o : sfobj A) : fobj A :=\n  {| f_call := InnerSumFunction_call o; f_deriv := InnerSumFunction_deriv o; f_hess := InnerSumFunction_hess o |}.')
+  out.append('Definition ranges_fobj (rf : list (nat * nat * fobj A)) : fobj A :=\n  {| f_call := RangesFunction_call (map fst rf) (map snd rf); f_deriv := RangesFunction_deriv (map fst rf) (map snd rf);\n     f_hess := fun x => mconst (length x) (length x) n0 (* RangesFunction.hess is not translated *) |}.\n')
+  C2 = {'cost_fn': ('(p_l p_h : A) (cbounds : list (cbound A)) : fobj A',
+                    'match cbounds with [c] => innersum_fobj (sfobj_hl (p_l, p_h, cb_lo c, cb_hi c)) | _ => ranges_fobj (map (fun c => ((cb_s c, cb_e c), innersum_fobj (sfobj_hl (p_l, p_h, cb_lo c, cb_hi c)))) cbounds) end'),
+        'cost': ('(n : nat) (p_l p_h : A) (cbounds : list (cbound A)) (s p : list A) : A', 'cdev2_cost p_l p_h cbounds s p'),
+        'deriv': ('(n : nat) (p_l p_h : A) (cbounds : list (cbound A)) (s p : list A) : list A', 'cdev2_deriv p_l p_h cbounds s p')}
+  try:
+    c2 = tr_cdevice2(repo)
+    err = None
+  except (Unsupported, SyntaxError, OSError) as e:
+    c2, err = {}, str(e).replace('*)', '* )')
+  for mn in ('cost_fn', 'cost', 'deriv'):
+    if mn in c2:
+      translated.append('CDevice2_%s' % mn)
+      out.append('(* cdevice2.py: CDevice2.%s *)' % {'cost_fn': '_cost_fn'}.get(mn, mn))
+      body = c2[mn]
+    else:
+      untranslated.append('CDevice2_%s' % mn)
+      out.append('(* cdevice2.py: CDevice2.%s NOT TRANSLATED (%s): alias of the hand-written model, tie falls back to the correspondence *)' % ({'cost_fn': '_cost_fn'}.get(mn, mn), err))
+      body = C2[mn][1]
+    out.append('Definition CDevice2_%s %s :=\n  %s.\n' % (mn, C2[mn][0], body))
   # ADevice (device_kit/adevice.py): the device whose preference is a function object
   AD = {'cost': ('A', 'f_call f s + dot s p'), 'deriv': ('list A', 'vadd (f_deriv f s) p'), 'hess': ('list (list A)', 'f_hess f s')}
   try:
